@@ -351,7 +351,13 @@ def run(chk):
                        "notifications (RUNNING with the input, the terminal status with output / error) and the number of task "
                        "requests are compared with what Asl.run predicts — as sequences when no fan-out was entered, as multisets "
                        "when fan-outs ran and none failed, and (a fan-out attempt failed) the engine's Execution…, StateExited and "
-                       "LambdaFunctionSucceeded events must be among the model's (history.* in the distribution)" % depth)
+                       "LambdaFunctionSucceeded events must be among the model's; timed: the reference semantics has a clock (worker delays from "
+                       "the plans, Wait targets, retry intervals, Task TimeoutSeconds, concurrent branches joined at the latest end, "
+                       "the earliest failure of a fan-out wins) and every compared event carries its instant (ms, exact), as do the "
+                       "requests' arrival at the workers and the stopDate; a third of the cases are made to exercise the clock "
+                       "(machgen.timify: TimeoutSeconds with delays on both sides of the deadline, all four Wait forms, odd reply "
+                       "delays); runs where concurrent branches put the same question to one worker at different instants are not "
+                       "compared (oracle_order), nor ties between failing branches (tieFail) (history.* in the distribution)" % depth)
 
 
 def replay(chk, path):
